@@ -79,7 +79,9 @@ def layout(d):
              'pkgm/__init__.py': '', 'pkgm/__main__.py': ENVDUMP.replace('import helper_sibling', 'import helper_sibling'),
              'pkgm/leaf.py': ENVDUMP, 'setup_file.py': SETUP, 'sub/setup_in_sub.py': SETUP,
              'raises.py': ENVDUMP + 'raise ValueError("the program fails at its end")\n',
-             'sub/chdir_then_import.py': CHDIR, 'sub/helper_late.py': 'Y = 5\n', 'linkdir/.keep': ''}
+             'sub/chdir_then_import.py': CHDIR, 'sub/helper_late.py': 'Y = 5\n', 'linkdir/.keep': '',
+             # a directory name with an apostrophe, a space and a backslash-free quote pair: the path goes into a command string in cProfile mode
+             "bob's \"old\" scripts/quoted.py": ENVDUMP, "bob's \"old\" scripts/helper_sibling.py": 'X = 4\n', "bob's \"old\" scripts/helper_wrapped.py": WRAPPED}
     for rel, text in files.items():
         p = os.path.join(d, rel)
         os.makedirs(os.path.dirname(p), exist_ok=True)
@@ -101,6 +103,7 @@ TARGETS = [
     ('raises', ['raises.py'], ['raises.py'], False),
     ('symlink', ['linkdir/linked.py'], ['linkdir/linked.py'], False),
     ('chdir-then-import', ['sub/chdir_then_import.py'], ['sub/chdir_then_import.py'], False),
+    ('quoted-path', ['bob\'s "old" scripts/quoted.py'], ['bob\'s "old" scripts/quoted.py'], False),
 ]
 OPTSETS = [[], ['-l'], ['-b'], ['-l', '-b'], ['-l', '-v'], ['-l', '-z', '-u', '1e-3'], ['-l', '-i', '5'], ['-b', '-i', '5'], ['-i', '3'],
            ['-l', '-o', 'custom.out'], ['-l', '-s', 'setup_file.py'], ['-s', 'setup_file.py'], ['-l', '-p', 'helper_sibling'],
